@@ -170,10 +170,19 @@ func (prx *linkedIPProxy) ServeHTTP(w http.ResponseWriter, r *http.Request) {
 //   - GET /linkip/{device_id}/{encrypted}/status
 //   - POST /ddns/{device_id}/{encrypted}/{domain}
 //   - POST /linkip/{device_id}/{encrypted}
+//
+// Paths containing dot segments are never proxied, since the backend may
+// normalize them into a path outside of the API.
 func shouldProxy(method, urlPath string) (ok bool) {
 	parts := strings.SplitN(strings.TrimPrefix(urlPath, "/"), "/", 5)
 	if l := len(parts); l < 3 || l > 4 {
 		return false
+	}
+
+	for _, p := range parts {
+		if p == "." || p == ".." {
+			return false
+		}
 	}
 
 	switch method {
